@@ -678,6 +678,22 @@ B("c14-converter-early-return", ["C14"], "tokenizers.py", "                # hyp
 B("c17-short-form-takes-following-year", ["C17"], "find.py", "    citation.guess_edition()\n    citation.guess_court()\n    return citation\n\n\ndef _extract_supra_citation(",
   "    citation.guess_edition()\n    m2 = match_on_tokens(words, index + 1, r\"\\ ?\\((?P<year>\\d{4})\\)\", strings_only=True)\n    if m2:\n        citation.metadata.year = m2[\"year\"]\n    citation.guess_court()\n    return citation\n\n\ndef _extract_supra_citation(", rule="R-C17-2")
 
+# ------------------------------------------------------------------ round-10 seeds (14; 12 at first contact, 14 after O8 fold frame and R-C03-1 filter shape)
+P("seed-C03-13", ["C03"], "seeded/C03-13/patch.diff")
+P("seed-C03-14", ["C03"], "seeded/C03-14/patch.diff")
+P("seed-C06-13", ["C06"], "seeded/C06-13/patch.diff")
+P("seed-C06-14", ["C06"], "seeded/C06-14/patch.diff")
+P("seed-C07-13", ["C07"], "seeded/C07-13/patch.diff")
+P("seed-C07-14", ["C07"], "seeded/C07-14/patch.diff")
+P("seed-C08-13", ["C08"], "seeded/C08-13/patch.diff")
+P("seed-C08-14", ["C08"], "seeded/C08-14/patch.diff")
+P("seed-C13-13", ["C13"], "seeded/C13-13/patch.diff")
+P("seed-C13-14", ["C13"], "seeded/C13-14/patch.diff")
+P("seed-C18-13", ["C18"], "seeded/C18-13/patch.diff")
+P("seed-C18-14", ["C18"], "seeded/C18-14/patch.diff")
+P("seed-C19-13", ["C19"], "seeded/C19-13/patch.diff")
+P("seed-C19-14", ["C19"], "seeded/C19-14/patch.diff")
+
 # ------------------------------------------------------------------ generated whole-package benign rewrites (every property)
 for _g in ("reformat", "logging", "rename-locals"):
     VARIANTS.append({"id": f"gen-{_g}", "kind": "benign", "props": ["*"], "gen": _g})
@@ -697,6 +713,9 @@ _SKIP |= {"r5-annotate-3", "r5-tokenizers-1", "r5-tokenizers-2", "r5-tokenizers-
 _SKIP |= {"r6-annotate-2", "r6-annotate-3", "r6-clean-1", "r6-clean-3", "r6-find-1", "r6-find-3", "r6-helpers-1", "r6-helpers-3", "r6-models-1", "r6-resolve-1", "r6-resolve-3", "r6-tokenizers-2", "r6-tokenizers-3", "r6-utils-1", "r6-utils-3"}
 # r7 = feature / fix commits aimed at the areas of the round-8 rules (none of the new rules fires on them; the reports come from older rules)
 _SKIP |= {"r7-resolve-2", "r7-tokenizers-1", "r7-tokenizers-2", "r7-utils-3", "r7-find-1"}
+# r8 = second batch aimed at the rule areas of rounds 8-9; the reported ones repeat earlier known limits (accumulator, atomic cache write, hit realignment,
+# find/rfind balancer, multi-word markup names, prefix/suffix trimming before difflib, a different trimming algorithm for the full span)
+_SKIP |= {"r8-annotate-2", "r8-find-3", "r8-helpers-2", "r8-resolve-2", "r8-utils-2", "r8-tokenizers-1", "r8-tokenizers-2", "r8-tokenizers-3"}
 for _f in sorted(_glob.glob(_os.path.join(_os.path.dirname(_os.path.dirname(__file__)), "benign", "*.diff"))):
     _n = _os.path.basename(_f)[:-5]
     if _n not in _SKIP:
